@@ -180,3 +180,83 @@ func max(a, b int) int {
 	}
 	return b
 }
+
+// propDRBGRejection: the rejection sampler over the REAL deterministic
+// generator, with some of the generator's outputs replaced by out-of-range
+// candidates (0, n, 2^256-1, ...) so that the sampler must reject them -- the
+// only way to see what sign() does "after rejected candidates", since an
+// out-of-range HMAC output has probability 2^-128.  The forced generator
+// advances exactly like the real one; the accepted candidate must be the
+// reference's T_j for the first non-forced position j, unmodified.
+func propDRBGRejection(t *rapid.T) {
+	x := gen.NonZero256(t, ref.N, "x")
+	e := gen.Int256(t, ref.N, "e")
+	limit := resampleLimit(t)
+	nForced := rapid.IntRange(1, limit+1).Draw(t, "rejected")
+	over := make([][]byte, nForced)
+	for i := range over {
+		switch gen.Sampled([]string{"0", "n", "n+1", "2^256-1", ">=n"}).Draw(t, fmt.Sprintf("bad%d", i)) {
+		case "0":
+			over[i] = make([]byte, 32)
+		case "n":
+			over[i] = ref.B32(ref.N)
+		case "n+1":
+			over[i] = ref.B32(new(big.Int).Add(ref.N, big.NewInt(1)))
+		case "2^256-1":
+			over[i] = bytes.Repeat([]byte{0xff}, 32)
+		default:
+			over[i] = ref.B32(new(big.Int).Add(ref.N, gen.Int256(t, new(big.Int).Sub(ref.Two256, ref.N), "over")))
+		}
+	}
+	calls := rapid.IntRange(1, 3).Draw(t, "sampler-calls")
+	stat.Case("drbg-rejection", []string{fmt.Sprintf("rejected:%d", nForced), fmt.Sprintf("calls:%d", calls)}, true,
+		[]byte(fmt.Sprintf("%x|%x|%x|%d", x, e, over, calls)), func() any {
+			return map[string]any{"x": x.Text(16), "e": e.Text(16), "forced_rejections": nForced, "sampler_calls": calls}
+		})
+	rd := secec.VerifNewForcingDrbgRFC6979(lib.Sc(x), lib.Sc(e), over)
+	g := ref.NewRFC6979(x, ref.B32(e))
+	pos := 0 // index of the next reference candidate
+	for c := 0; c < calls; c++ {
+		// model of one sampler call starting at generator position pos
+		var want []byte
+		rejected := 0
+		for {
+			cand := g.Next()
+			forced := pos < nForced
+			pos++
+			if forced {
+				rejected++
+				if rejected >= limit {
+					want = nil
+					break
+				}
+				continue
+			}
+			if v := ref.Int(cand); v.Sign() == 0 || v.Cmp(ref.N) >= 0 {
+				rejected++ // (probability 2^-128)
+				if rejected >= limit {
+					break
+				}
+				continue
+			}
+			want = cand
+			break
+		}
+		k, err := secec.VerifSampleRandomScalar(rd)
+		if want == nil {
+			if err == nil || k != nil {
+				t.Fatalf("sampler call %d returned a scalar although its first %d candidates were out of range", c+1, limit)
+			}
+			continue
+		}
+		if err != nil || k == nil {
+			t.Fatalf("sampler call %d over the RFC 6979 generator failed after %d rejected candidates: %v", c+1, rejected, err)
+		}
+		if !bytes.Equal(k.Bytes(), want) {
+			t.Fatalf("after %d rejected candidates the sampler returned %x, RFC 6979 says the next candidate is %x (x=%x e=%x, call %d)",
+				rejected, k.Bytes(), want, x, e, c+1)
+		}
+	}
+}
+
+func TestC09_DRBGRejection(t *testing.T) { rapid.Check(t, propDRBGRejection) }
